@@ -224,8 +224,25 @@ def analyse(f, elem_params, allow=lambda site: None):
         elif k == "call" and ATOMIC_BUILTIN.search(e.get("name") or ""):
             writes.append((fn.loc(pos), S(e.get("a", [None])[0]), "ATOMIC"))
             continue
-        elif k == "atomic" and e["kind"] in ("store", "rmw", "cas"):
-            writes.append((fn.loc(pos), e["p"], "ATOMIC" if e["kind"] != "store" else "ATOMIC-STORE"))
+        elif k == "atomic" and e["kind"] in ("rmw", "cas"):
+            writes.append((fn.loc(pos), e["p"], "ATOMIC"))
+            continue
+        elif k == "atomic" and e["kind"] == "store":
+            # an atomic store is not a data race, but a store to an element another iteration may update loses that update:
+            # it must be owner-indexed like a plain write
+            cont, idx = indexed_target(e.get("obj"))
+            cls = b.classify(idx) if idx not in (None, "DEREF") else "OTHER"
+            rn, rt = root_name(cont if cont is not None else e.get("obj"))
+            if rn is not None and b.is_local(rn) and not (isinstance(rt, dict) and (rt.get("t") or {}).get("ref")):
+                continue
+            if "getLocal()" in e["p"]:
+                cls = "THREAD"
+            writes.append((fn.loc(pos), e["p"], cls if cls not in ("OTHER", "CONST") else "OTHER"))
+            if idx is not None and idx != "DEREF":
+                written_arrays.setdefault(S(cont), set()).add(S(idx))
+            if cls in ("OTHER", "CONST"):
+                problems.append("atomic store to %s is not owner-indexed: concurrent updates of that element are lost (%s)" % (
+                    e["p"], fn.loc(pos)))
             continue
         for kind, t in targets:
             cont, idx = indexed_target(t)
